@@ -2,7 +2,7 @@
 C13 — the solution set does not depend on how the model is written down (metamorphic; DESIGN.md 4).
 
 Case: {"model": {"kind": "random", "problem": P} | {"kind": "shipped", "name": ..., "args": [...]},
-       "rewrite": {"r": "R1".."R6", ...drawn data...}, "config": cfg, "op": ["iter"] | ["min", v] | ["max", v]}
+       "rewrite": {"r": "R1".."R7", ...drawn data...}, "config": cfg, "op": ["iter"] | ["min", v] | ["max", v]}
 No reference solver: the original and the rewritten model are both solved by nucs and compared.
 """
 
@@ -175,7 +175,37 @@ def r6_translate(pc, rw):
     return new, (lambda s: tuple(x - t for x in s))
 
 
-REWRITES = {"R1": r1_unshare, "R2": r2_order, "R3": r3_rename, "R4": r4_twice, "R5": r5_true, "R6": r6_translate}
+def r7_fresh(pc, rw):
+    """k fresh variables with a one-value domain (added through the model-building API, see build_r7) and an always-true constraint on them."""
+    k = 1 + rw["count"] % 2
+    val = rw["value"]
+    nv, nd = len(pc["idx"]), len(pc["shr"])
+    new = dict(pc)
+    new["shr"] = [list(d) for d in pc["shr"]] + [[val, val] for _ in range(k)]
+    new["idx"] = list(pc["idx"]) + [nd + i for i in range(k)]
+    new["off"] = list(pc["off"]) + [0] * k
+    vs = [nv + i for i in range(k)]
+    extra = {"type": "dummy", "vars": vs, "params": []} if rw["form"] == "dummy" else {"type": "affine_leq", "vars": vs, "params": [1] * k + [k * val + rw["slack"]]}
+    new["props"] = list(pc["props"]) + [extra]
+    return new, (lambda s: tuple(s[:nv]))
+
+
+def build_r7(pc, new, rw):
+    """The rewritten model built the way a user would: the original model, then add_variable() / add_variables(), then the constraint."""
+    k = 1 + rw["count"] % 2
+    val = rw["value"]
+    pb = nx.build_problem(pc)
+    if rw["how"] == "one":
+        got = [pb.add_variable((val, val)) for _ in range(k)]
+    else:
+        start = pb.add_variables([(val, val)] * k)
+        got = [start + i for i in range(k)]
+    extra = new["props"][-1]
+    pb.add_propagator((list(extra["vars"]), nx.ALG[extra["type"]], list(extra["params"])))
+    return pb, got
+
+
+REWRITES = {"R7": r7_fresh, "R1": r1_unshare, "R2": r2_order, "R3": r3_rename, "R4": r4_twice, "R5": r5_true, "R6": r6_translate}
 
 
 def check(case):
@@ -189,7 +219,7 @@ def check(case):
         tags += problem_tags(pc)
     if rw["r"] == "R6" and not translatable(pc):
         return Verdict(True, "", False, tags, excluded="not-translation-invariant")
-    if (cfg["var"] == "max_regret" or cfg["dom"] == "min_cost") and rw["r"] in ("R1", "R3", "R6"):
+    if (cfg["var"] == "max_regret" or cfg["dom"] == "min_cost") and rw["r"] in ("R1", "R3", "R6", "R7"):
         # cost tables are indexed by shared domain and value: these rewrites would need a rewritten table
         cfg = dict(cfg, var="first" if cfg["var"] == "max_regret" else cfg["var"], dom="min" if cfg["dom"] == "min_cost" else cfg["dom"])
         cfg.pop("costs", None)
@@ -208,7 +238,17 @@ def check(case):
             vperm = sorted(range(nv), key=lambda i: (key[i % len(key)], i))
             op2 = (op[0], vperm.index(v))
     a = solve.run(pc, cfg, op)
-    b = solve.run(new, cfg, op2)
+    if rw["r"] == "R7":
+        try:
+            pb7, got = engine(build_r7, pc, new, rw)
+        except EngineError as e:
+            return Verdict(False, "adding a fresh variable through the API raised %s" % e.bucket, True, tags)
+        want = list(range(nv, len(new["idx"])))
+        if got != want:
+            return Verdict(False, "add_variable%s on a model with %d variables over %d shared domains returned the indices %s for the variables %s" % ("" if rw["how"] == "one" else "s", nv, len(pc["shr"]), got, want), True, tags)
+        b = solve.run(new, cfg, op2, pb=pb7)
+    else:
+        b = solve.run(new, cfg, op2)
     if a.kind == "slow" or b.kind == "slow":
         return Verdict(True, "", False, tags + ["inconclusive:slow"])
     if a.kind != "ok":
@@ -242,8 +282,14 @@ def check(case):
 
 @st.composite
 def rewrite(draw):
-    r = draw(st.sampled_from(["R1", "R2", "R3", "R4", "R5", "R6"]))
+    r = draw(st.sampled_from(["R1", "R2", "R3", "R4", "R5", "R6", "R7"]))
     rw = {"r": r}
+    if r == "R7":
+        rw["count"] = draw(st.integers(0, 1))
+        rw["value"] = draw(st.integers(-3, 7))
+        rw["form"] = draw(st.sampled_from(["dummy", "leq"]))
+        rw["slack"] = draw(st.integers(0, 2))
+        rw["how"] = draw(st.sampled_from(["one", "many"]))
     if r == "R2":
         rw["order"] = draw(st.lists(st.integers(0, 9), min_size=1, max_size=8))
     elif r == "R3":
@@ -299,7 +345,7 @@ def c13_case(draw, tier, shipped=False):
 META = {
     "level": "exploration",
     "rule": "cases = model (generated problem larger than brute force would allow, or a shipped model: queens, latin square (+RC), magic sequence, magic square, Schur, knapsack, circuit, Golomb) x rewrite "
-    "(R1 un-share domains + equalities, R2 permute posting order, R3 rename variables and shared domains, R4 post a constraint twice, R5 add an always-true constraint, R6 translate a translation-invariant model) "
+    "(R1 un-share domains + equalities, R2 permute posting order, R3 rename variables and shared domains, R4 post a constraint twice, R5 add an always-true constraint, R6 translate a translation-invariant model, R7 add fresh one-value variables through add_variable()/add_variables() with an always-true constraint on them) "
     "x configuration x operation; oracle = metamorphic equality of the solution multiset (mapped back) and of the optimum, no reference solver; non-trivial = the rewrite changed the model and it has >= 1 solution and >= 1 non-solution "
     "(optimisation: feasible); distinct by SHA-1 of the canonical case",
 }
